@@ -83,18 +83,32 @@ func (w *World) rulesScan(p *Pkg, add func(ok bool, rule, inst string, n ast.Nod
 	type input struct {
 		toks []string
 		bad  int // index of the first bad element, -1 if none
+		// cut probe: element `bad` has a known abbreviation and an illegal value
+		// spelled with zero or two ':'; Set must be offered exactly (abv, cutVal)
+		cut            bool
+		cutAbv, cutVal string
 	}
 	var inputs []input
 	for _, canon := range [][]string{base, full} {
-		inputs = append(inputs, input{append([]string(nil), canon...), -1})
+		inputs = append(inputs, input{toks: append([]string(nil), canon...), bad: -1})
 		for j := 0; j <= len(canon); j++ {
 			for _, b := range []string{"", "x", ":"} {
 				if p.Key == "20" && len(canon)+1 > 14 {
 					continue // beyond the 14 slots the splitter keeps the remainder whole
 				}
 				t := append(append(append([]string(nil), canon[:j]...), b), canon[j:]...)
-				inputs = append(inputs, input{t, j})
+				inputs = append(inputs, input{toks: t, bad: j})
 			}
+		}
+	}
+	// cut probes on the base vector: "ABV:v:v" (value keeps what follows the first
+	// ':') and "ABV" (no ':': empty value) at the first, a middle and the last position
+	for _, j := range []int{0, len(base) / 2, len(base) - 1} {
+		a, v, _ := strings.Cut(base[j], ":")
+		for _, el := range [][2]string{{a + ":" + v + ":" + v, v + ":" + v}, {a, ""}} {
+			t := append([]string(nil), base...)
+			t[j] = el[0]
+			inputs = append(inputs, input{toks: t, bad: j, cut: true, cutAbv: a, cutVal: el[1]})
 		}
 	}
 	// the defined-once method (v3), if it is a call
@@ -107,9 +121,11 @@ func (w *World) rulesScan(p *Pkg, add func(ok bool, rule, inst string, n ast.Nod
 	poolN := 14
 	type rec struct{ abv, val string }
 	nEval, nBad := 0, 0
+	nCut, cutBad := 0, ""
 	var firstBad string
 	for _, in := range inputs {
 		var got []rec
+		var attempts []rec
 		var examined []string
 		seen := map[string]bool{}
 		ce := newCEnv(p, make([]uint8, len(p.Fields)))
@@ -122,6 +138,7 @@ func (w *World) rulesScan(p *Pkg, add func(ok bool, rule, inst string, n ast.Nod
 				if len(args) != 2 || args[0].K != VStr || args[1].K != VStr {
 					return Val{}, true, undecidedf(call, "Set called with values the evaluator does not follow")
 				}
+				attempts = append(attempts, rec{args[0].S, args[1].S})
 				m := sm.ByLabel[args[0].S]
 				legal := false
 				if m != nil {
@@ -191,6 +208,21 @@ func (w *World) rulesScan(p *Pkg, add func(ok bool, rule, inst string, n ast.Nod
 			a, val, _ := strings.Cut(t, ":")
 			want = append(want, rec{a, val})
 		}
+		if in.cut {
+			// the element reaches Set (its abbreviation is known and in place): with which value?
+			nCut++
+			okCut := len(attempts) > 0 && attempts[len(attempts)-1] == rec{in.cutAbv, in.cutVal} && !accepted
+			if !okCut && cutBad == "" {
+				last := "nothing"
+				if len(attempts) > 0 {
+					last = fmt.Sprintf("(%q, %q)", attempts[len(attempts)-1].abv, attempts[len(attempts)-1].val)
+				}
+				cutBad = fmt.Sprintf("for the element %q Set is offered %s, expected (%q, %q) — the part before and the part after the first ':'", in.toks[in.bad], last, in.cutAbv, in.cutVal)
+				if accepted {
+					cutBad += "; and the vector is accepted"
+				}
+			}
+		}
 		problem := ""
 		// with the defined-once method replaced by its contract the statements after
 		// the loop see an empty record: acceptance is then not observable, the
@@ -229,6 +261,13 @@ func (w *World) rulesScan(p *Pkg, add func(ok bool, rule, inst string, n ast.Nod
 			if firstBad == "" {
 				firstBad = problem
 			}
+		}
+	}
+	p.scanCutN, p.scanCutBad, p.scanDone = nCut, cutBad, true
+	if cutBad != "" {
+		nBad++
+		if firstBad == "" {
+			firstBad = cutBad
 		}
 	}
 	if nBad == 0 {
